@@ -287,7 +287,11 @@ def runIdle (p : Prog) : Nat → State → State
   | k + 1, s => if (ready s).isEmpty then s else runIdle p k (pollNth p s 0)
 
 def step (p : Prog) (s : State) : Op → State × Option Int
-  | .set id v => (setSignal (fuelFor p) s id v, none)
+  | .set id v =>
+    -- only signals can be written (the API offers no `set` on memos/effects): anything else is a no-op
+    match p[id]? with
+    | some (.sig _) => (setSignal (fuelFor p) s id v, none)
+    | _ => (s, none)
   | .read id =>
     let (s, v) := readNode (upd p (fuelFor p)) s id
     (s, some v)
